@@ -6,6 +6,7 @@ mod direct;
 mod hist;
 mod linebuf;
 mod seg;
+mod ttychild;
 mod udata;
 mod util;
 
@@ -18,6 +19,10 @@ fn main() {
     if args.len() < 2 {
         eprintln!("usage: rlharness <stream> [file]");
         std::process::exit(2);
+    }
+    if args[1] == "tty-child" {
+        ttychild::main(&args[2]);
+        return;
     }
     if args[1] == "direct-child" {
         direct::child(args.get(2).map(|s| s == "1").unwrap_or(false));
